@@ -121,9 +121,13 @@ fn run_plan(plan: Option<&Value>, seed: u64) -> RunOut {
                     if phase == "before" {
                         *delayed.borrow_mut() = Some((m.tid.clone(), 120));
                     }
-                    if phase == "late" {
+                    if phase == "late" || phase == "late_duplicate" {
                         // the genuine reply arrives after the request expired (other requests still in flight)
                         *delayed.borrow_mut() = Some((m.tid.clone(), 700));
+                        if phase == "late_duplicate" {
+                            // ... and is then retransmitted
+                            dup_tid = Some(m.tid.clone());
+                        }
                     } else if phase == "duplicate" {
                         dup_tid = Some(m.tid.clone());
                     } else {
@@ -158,7 +162,9 @@ fn run_plan(plan: Option<&Value>, seed: u64) -> RunOut {
                 // duplicate of the genuine reply from the right address, a little later
                 dup_tid = None;
                 let bytes = sim.log[scan - 1].msg.as_ref().map(|m| m.raw.encode()).unwrap_or_default();
-                sim.inject(from, caddr, bytes, 30);
+                // (the log records a datagram when it is sent: a delayed genuine reply is still on its way)
+                let late = plan.map(|p| p["phase"] == "late_duplicate").unwrap_or(false);
+                sim.inject(from, caddr, bytes, if late { 740 } else { 30 });
             }
         }
     }
@@ -220,7 +226,7 @@ pub fn run(args: &Args) -> i32 {
             out.line(e);
         }
         events += r.events.len() as u64;
-        out.line(&json!({"e":"end","b":b,"done":r.done,"panicked":r.panicked,"same_result":r.result == base.result,"expect_same":p["phase"] != "late","result":r.result,"baseline":base.result}));
+        out.line(&json!({"e":"end","b":b,"done":r.done,"panicked":r.panicked,"same_result":r.result == base.result,"expect_same":p["phase"] != "late" && p["phase"] != "late_duplicate","result":r.result,"baseline":base.result}));
         if samples.len() < 3 && i % 50 == 7 {
             samples.push(json!({"plan": p, "result": r.result, "events": r.events.len()}));
         }
